@@ -794,3 +794,37 @@ class SystemInfoEthernetStep:
     def ensures_listed_iff_up_with_its_own_address(xy, chip_info, _yielded):
         return (implies(chip_info.ethernet_up, len(_yielded) == 1 and _yielded[0] == (xy, chip_info.ip_address))
                 and implies(not chip_info.ethernet_up, len(_yielded) == 0))
+
+
+# ---- root_chip: the chip the machine was booted from is what the root monitor says about itself ----------------------------------------
+def _rc_version(E, obj, args, kwargs, st, node):
+    from pyvc.engine import Raised
+    s = st.copy()
+    s.trace = ListV(s.trace.items + (("get_software_version",) + tuple(args),))
+    ok = s.assume(z3.Not(st.env["g_fails"]))
+    bad = s.assume(st.env["g_fails"])
+    return [(ok, ObjV("CoreInfo", {"position": st.env["g_position"]}), None), (bad, Raised(ExcV("SCPError", ())), None)]
+
+
+@contract("rig/machine_control/machine_controller.py::MachineController.root_chip")
+class RootChip:
+    """a root chip already known is reported and nothing is sent; otherwise the root monitor (255, 255, 0) is asked and the position
+    IT reports is returned and remembered; when the question fails nothing is remembered"""
+    properties = ("C14", "C18")
+    params = dict(self=TRec("MachineController", _root_chip=TOpt(TTuple(TInt(0, 255), TInt(0, 255)))), g_position=TTuple(TInt(0, 255), TInt(0, 255)),
+                  g_fails=_TBool14())
+    externals = {"MachineController.get_software_version": _rc_version}
+    options = {"decorators": {"property": "identity"}}
+    assumptions = ["get_software_version (contract SoftwareVersion) is recorded: it reports a position (ghost) or raises SCPError"]
+
+    def native(x):
+        raise __import__("pyvc.replay", fromlist=["OutsideHarness"]).OutsideHarness()
+
+    def raises_SCPError(self, self_post, g_fails, _trace):
+        return self._root_chip is None and g_fails and len(_trace) == 1 and self_post._root_chip is None
+
+    def ensures_known_else_what_the_root_monitor_says(self, self_post, g_position, result, _trace):
+        known = self._root_chip is not None
+        return (implies(known, result == unopt(self._root_chip) and len(_trace) == 0 and self_post._root_chip == self._root_chip)
+                and implies(not known, len(_trace) == 1 and _trace[0] == ("get_software_version", 255, 255, 0) and result == g_position
+                            and self_post._root_chip is not None and unopt(self_post._root_chip) == g_position))
